@@ -1529,3 +1529,303 @@ impl TypeChecker {
         Ok(unspanned_type_fields)
     }
 }
+
+/// Verification hook (C07): drive the private unification machinery
+/// (`fresh_*`, `unify_inner`, the `Negate` marking, `resolve_type`) with a
+/// small script and print what it did. Add-only; feature `verif-hooks`.
+#[cfg(feature = "verif-hooks")]
+impl TypeChecker {
+    /// `script` is an s-expression
+    /// `(script (defs (ID (FIELD ty)…)…) (ops op…))` with
+    /// `op ::= (fresh v|i|f) | (freshrec (FIELD ty)…) | (unify ty ty) | (mark ty)`
+    /// and `ty ::= (v N) | (e N) | (iv N 0|1) | (fv N) | (rv N (FIELD ty)…) | unit
+    /// | never | (rec (FIELD ty)…) | (fn (ty…) ty) | (n ID ty…)`.
+    /// `ID`s 0‥14 are the built-in names `u8 u16 u32 u64 i8 i16 i32 i64 f32 f64
+    /// bool String Option List Result`; `ID`s from 20 are the records of `defs`.
+    /// Output: one word per op (`T<ty>` for a fresh variable, `ok`/`fail` for
+    /// `unify`, `m` for `mark`), then `|`, then `find(i)` of every slot.
+    pub fn verif_c07_unify_script(script: &str) -> String {
+        use verif_c07::*;
+        let toks = tokens(script);
+        let mut pos = 0;
+        let Some(sx) = parse(&toks, &mut pos) else {
+            return "bad-script".into();
+        };
+        let mut tc = TypeChecker::new();
+        let items = sx.list();
+        let mut out = Vec::new();
+        for item in items.iter().skip(1) {
+            let l = item.list();
+            match l.first().map(|x| x.atom()) {
+                Some("defs") => {
+                    for d in &l[1..] {
+                        let dl = d.list();
+                        let id: usize = dl[0].atom().parse().unwrap_or(0);
+                        let ident: Identifier = name_of(id).into();
+                        let name = ResolvedName {
+                            scope: ScopeRef::GLOBAL,
+                            ident,
+                        };
+                        let fields: Vec<_> =
+                            dl[1..].iter().map(|f| field(f)).collect();
+                        let def = TypeDefinition::Record(
+                            TypeName {
+                                name,
+                                arguments: Vec::new(),
+                            },
+                            fields,
+                        );
+                        let _ = tc.type_info.scope_graph.insert_type(
+                            ScopeRef::GLOBAL,
+                            &Meta {
+                                node: ident,
+                                id: MetaId(0),
+                            },
+                            String::new(),
+                            def.clone(),
+                        );
+                        tc.type_info.types.insert(name, def);
+                    }
+                }
+                Some("ops") => {
+                    for op in &l[1..] {
+                        let ol = op.list();
+                        match ol[0].atom() {
+                            "fresh" => {
+                                let t = match ol[1].atom() {
+                                    "i" => tc.fresh_int(),
+                                    "f" => tc.fresh_float(),
+                                    _ => tc.fresh_var(),
+                                };
+                                out.push(format!("T{}", show(&t)));
+                            }
+                            "freshrec" => {
+                                let fields =
+                                    ol[1..].iter().map(|f| field(f)).collect();
+                                let t = tc.fresh_record(fields);
+                                out.push(format!("T{}", show(&t)));
+                            }
+                            "unify" => {
+                                let a = ty(&ol[1]);
+                                let b = ty(&ol[2]);
+                                out.push(
+                                    match tc.unify_inner(&a, &b) {
+                                        Some(_) => "ok",
+                                        None => "fail",
+                                    }
+                                    .to_string(),
+                                );
+                            }
+                            "mark" => {
+                                // what `Expr::Negate` does to its operand's type
+                                let t = ty(&ol[1]);
+                                let operand_ty = tc.type_info.resolve(&t);
+                                if let Type::IntVar(i, MustBeSigned::No) =
+                                    &operand_ty
+                                {
+                                    tc.type_info.unionfind.set(
+                                        *i,
+                                        Type::IntVar(*i, MustBeSigned::Yes),
+                                    );
+                                }
+                                out.push("m".into());
+                            }
+                            _ => out.push("bad-op".into()),
+                        }
+                    }
+                }
+                _ => {}
+            }
+        }
+        out.push("|".into());
+        let n = tc.type_info.unionfind.verif_len();
+        for i in 0..n {
+            let t = tc.type_info.unionfind.find(i);
+            out.push(show(&t));
+        }
+        out.join(" ")
+    }
+}
+
+#[cfg(feature = "verif-hooks")]
+mod verif_c07 {
+    use super::*;
+
+    pub enum Sx {
+        Atom(String),
+        List(Vec<Sx>),
+    }
+
+    impl Sx {
+        pub fn atom(&self) -> &str {
+            match self {
+                Sx::Atom(s) => s,
+                Sx::List(_) => "",
+            }
+        }
+        pub fn list(&self) -> &[Sx] {
+            match self {
+                Sx::Atom(_) => &[],
+                Sx::List(l) => l,
+            }
+        }
+    }
+
+    pub fn tokens(s: &str) -> Vec<String> {
+        let mut out = Vec::new();
+        let mut cur = String::new();
+        for c in s.chars() {
+            if c == '(' || c == ')' || c.is_whitespace() {
+                if !cur.is_empty() {
+                    out.push(std::mem::take(&mut cur));
+                }
+                if c == '(' || c == ')' {
+                    out.push(c.to_string());
+                }
+            } else {
+                cur.push(c);
+            }
+        }
+        if !cur.is_empty() {
+            out.push(cur);
+        }
+        out
+    }
+
+    pub fn parse(toks: &[String], pos: &mut usize) -> Option<Sx> {
+        let t = toks.get(*pos)?;
+        *pos += 1;
+        if t == "(" {
+            let mut items = Vec::new();
+            loop {
+                if toks.get(*pos)? == ")" {
+                    *pos += 1;
+                    return Some(Sx::List(items));
+                }
+                items.push(parse(toks, pos)?);
+            }
+        } else if t == ")" {
+            None
+        } else {
+            Some(Sx::Atom(t.clone()))
+        }
+    }
+
+    pub const NAMES: [&str; 15] = [
+        "u8", "u16", "u32", "u64", "i8", "i16", "i32", "i64", "f32", "f64",
+        "bool", "String", "Option", "List", "Result",
+    ];
+
+    pub fn name_of(id: usize) -> String {
+        match NAMES.get(id) {
+            Some(n) => n.to_string(),
+            None => format!("R{id}"),
+        }
+    }
+
+    pub fn id_of(name: &str) -> usize {
+        if let Some(i) = NAMES.iter().position(|n| *n == name) {
+            return i;
+        }
+        name.strip_prefix('R')
+            .and_then(|s| s.parse().ok())
+            .unwrap_or(999)
+    }
+
+    fn num(s: &Sx) -> usize {
+        s.atom().parse().unwrap_or(0)
+    }
+
+    pub fn field(s: &Sx) -> (Meta<Identifier>, Type) {
+        let l = s.list();
+        (
+            Meta {
+                node: format!("a{}", l[0].atom()).into(),
+                id: MetaId(0),
+            },
+            ty(&l[1]),
+        )
+    }
+
+    pub fn ty(s: &Sx) -> Type {
+        match s {
+            Sx::Atom(a) => match a.as_str() {
+                "never" => Type::Never,
+                _ => Type::Unit,
+            },
+            Sx::List(l) => match l[0].atom() {
+                "v" => Type::Var(num(&l[1])),
+                "e" => Type::ExplicitVar(format!("E{}", l[1].atom()).into()),
+                "iv" => Type::IntVar(
+                    num(&l[1]),
+                    if num(&l[2]) == 1 {
+                        MustBeSigned::Yes
+                    } else {
+                        MustBeSigned::No
+                    },
+                ),
+                "fv" => Type::FloatVar(num(&l[1])),
+                "rv" => Type::RecordVar(
+                    num(&l[1]),
+                    l[2..].iter().map(field).collect(),
+                ),
+                "rec" => Type::Record(l[1..].iter().map(field).collect()),
+                "fn" => Type::Function(
+                    l[1].list().iter().map(ty).collect(),
+                    Box::new(ty(&l[2])),
+                ),
+                _ => Type::Name(TypeName {
+                    name: ResolvedName {
+                        scope: ScopeRef::GLOBAL,
+                        ident: name_of(num(&l[1])).into(),
+                    },
+                    arguments: l[2..].iter().map(ty).collect(),
+                }),
+            },
+        }
+    }
+
+    fn show_fields(fields: &[(Meta<Identifier>, Type)]) -> String {
+        fields
+            .iter()
+            .map(|(n, t)| {
+                format!(
+                    " ({} {})",
+                    n.node.as_str().trim_start_matches('a'),
+                    show(t)
+                )
+            })
+            .collect()
+    }
+
+    pub fn show(t: &Type) -> String {
+        match t {
+            Type::Var(n) => format!("(v {n})"),
+            Type::ExplicitVar(i) => {
+                format!("(e {})", i.as_str().trim_start_matches('E'))
+            }
+            Type::IntVar(n, s) => format!(
+                "(iv {n} {})",
+                if *s == MustBeSigned::Yes { 1 } else { 0 }
+            ),
+            Type::FloatVar(n) => format!("(fv {n})"),
+            Type::RecordVar(n, f) => format!("(rv {n}{})", show_fields(f)),
+            Type::Unit => "unit".into(),
+            Type::Never => "never".into(),
+            Type::Record(f) => format!("(rec{})", show_fields(f)),
+            Type::Function(p, r) => format!(
+                "(fn ({}) {})",
+                p.iter().map(show).collect::<Vec<_>>().join(" "),
+                show(r)
+            ),
+            Type::Name(n) => format!(
+                "(n {}{})",
+                id_of(n.name.ident.as_str()),
+                n.arguments
+                    .iter()
+                    .map(|a| format!(" {}", show(a)))
+                    .collect::<String>()
+            ),
+        }
+    }
+}
